@@ -124,7 +124,9 @@ func moduleStmt(g *yg.G) *yg.Stmt {
 }
 
 var oddArgs = []string{"-", "+", " ", "..", "1..", "..1", "|", "1|", "|1", "a..b", "-.5..1", "1..2 | -", "--1", "-0", "00", "0x", "1e1", "9999999999999999999999", "min", "max", "min..max", "max..min",
-	"true", "false", "True", "current", "a b", "a/b", "/a:b", "/", "a:", ":a", "1a", "é", "\u00a0", "a\u00a0b", "2020-01-01", "2020-1-1", "2020-13-45", "unbounded", "*", "[", "(", "\\", "1", "0", "18", "19", "user", "system", "not-supported", "add", "replace", "delete", "k", "k k", "-", "- 1", "1 -", "+1", "1..-", "-..5", ".", "1.", ".1", "1.2.3"}
+	"true", "false", "True", "current", "a b", "a/b", "/a:b", "/", "a:", ":a", "1a", "é", "\u00a0", "a\u00a0b", "2020-01-01", "2020-1-1", "2020-13-45", "unbounded", "*", "[", "(", "\\", "1", "0", "18", "19", "user", "system", "not-supported", "add", "replace", "delete", "k", "k k", "-", "- 1", "1 -", "+1", "1..-", "-..5", ".", "1.", ".1", "1.2.3",
+	// arguments wrapped over lines, as long key and unique lists are
+	"k\n      k2", "a\nb", "k\r\n  k2", "k \n", "\nk", "a\tb", "k\n\n k2", "1\n..\n5", "a/b\n c/d", "\n", "\r\n", "k\r"}
 
 var symNames = []string{"t", "t", "u", "g", "string", "uint8", "int64", "leafref", "instance-identifier", "boolean", "empty", "union", "bits", "binary", "decimal64", "enumeration", "identityref", "m:t", "String"}
 
